@@ -28,6 +28,18 @@ CHECKS = {
          "produces only blocks the reference node accepted; block signers stay the standby validators (NextConsensus fixed) while the computed "
          "committee/validators vary with votes. StateRootInHeader varies per world, not between replicas of one world.",
          "TLA+ Node model checked by TLC; TLC-generated schedules replayed on real replicas; TLC trace validation of per-step digests"),
+ "C03": ("model_checking",
+         "On the C01 worlds (real replicas in all trie modes, TLC schedules, generated histories) every replica reads, at each height and for "
+         "retained earlier heights, THROUGH THE STATE ROOT: the full trie content (range search per contract), point reads of present/absent "
+         "keys, bounded finds (prefix/start/max), proofs (GetStateProof+VerifyProof, also offered for other keys and tampered) and ~40-100 "
+         "read-only scripts as historic invocations (balances, unclaimedGas, candidates, policy, storage get/find incl. backwards). TLC "
+         "(StateTrace.tla) recomputes every answer from the reference node's flat storage dump / live script results of that height: "
+         "RootCommits, GetMatches, FindMatches, ProofComplete, ProofSound, HistoricEqualsLive, HistoricAvailable. Node.tla is model-checked "
+         "for the schedule space. Sampled at code level.",
+         "DESIGN.md section 4 C03",
+         "Trusted: TLC; the reference node's SeekStorage dump as 'what contract storage held after block h' (its ordering is itself checked, "
+         "RefSorted); retention rule per configuration (only retained heights are judged); bounded find judged under its documented semantics.",
+         "TLC trace validation of reads through state roots against the flat-storage reference; TLC-generated schedules on real replicas"),
 }
 
 NOT_YET = {}   # id -> reason (properties not (yet) claimed)
